@@ -152,7 +152,7 @@ def gen_case(rng, big_ok=True):
         if m < 0.75 or not big_ok:
             n = rng.choice(LENS_SMALL)
         elif m < 0.9:
-            n = rng.choice([4 * (W - 1 - used) - 12 + d for d in (-1, 0, 1, 2, -4, -5)])   # around the admission boundary
+            n = rng.choice([4 * (W - 1 - used) - 12 + d for d in (-5, -4, -1, 0, 1, 2, 4, 5, 8, 9)])   # around the admission boundary
             n = max(0, min(n, 4 * W))
         else:
             n = rng.choice([4084, 4085, 4083, 2000, 64, 100])
@@ -198,6 +198,12 @@ def corpus():
         # semaphore: blocking reader woken by the post, zero-length chunk, undersized buffer (re-post)
         ["open 100 0 0", "w -", "w 01", "w 020304", "r read 0 1", "r read 0 0", "r read 8 1", "r peek 1", "r reclaim",
          "run 1:3 0:8 1:2 0:6 1:9 0:30 1:40", "drain"],
+        # the largest chunk an empty one-page ring accepts is 4084 bytes; one byte more would take exactly W words and
+        # bring write_pt round to read_pt: it must be refused (both notifier modes, pointers next to the end)
+        ["open 100 1 0", "pre w " + "11" * 4076, "pre r read 8192", "w " + "5a" * 4085, "w " + "5b" * 4084, "w 0102",
+         "r read 8192 0", "r read 8192 0", "run 0:c2 1:6 0:c1 1:c2", "drain"],
+        ["open 4083 0 0", "w " + "6a" * 4088, "w " + "6b" * 4086, "w " + "6c" * 4084, "r read 8192 0", "r read 8192 0",
+         "run 0:c1 1:4 0:4095 1:3 0:c3 1:c2", "drain"],
         # both threads through one handle
         ["open 4083 0 1", "w " + a1, "w " + "a1" * 5, "r peek 0", "r read 100 0", "r reclaim", "r read 100 0",
          "run 0:9 1:4 0:7 1:9 0:5 1:11 0:c2 1:c4", "drain"],
